@@ -153,7 +153,10 @@ def fnum(x):
 def close(a, b, rel=1e-9):
     if a is None or b is None:
         return a is None and (b is None or b == 0) or (b is None and a == 0)
-    a, b = float(a), float(b)
+    try:
+        a, b = float(a), float(b)
+    except (TypeError, ValueError):
+        return False        # a text where a number belongs is a mismatch, not a harness error
     return abs(a - b) <= rel * max(abs(a), abs(b), 1e-12) or abs(a - b) < 1e-13
 
 
